@@ -436,4 +436,10 @@ comment / PI leaves and the fast-path wrappers guarded by `!context.hasPreserveO
 theorem string_value_funnel_passes_context :
     XalanModel.Generated.C13_Sites.valueSitesFunnel = expectedValueSitesFunnel := rfl
 
+/-- Every statement of `StylesheetExecutionContextDefault` that touches its inner, never-stripping
+`XPathExecutionContextDefault` is the reviewed list: services are delegated, node-observing code (`extFunction`) is
+handed `*this`; and the inner context's `shouldStripSourceNode` is the constant `false` that makes this matter. -/
+theorem context_forwarding_as_reviewed :
+    XalanModel.Generated.C13_Sites.contextForwarding = expectedContextForwarding := rfl
+
 end XalanModel.Props.C13
